@@ -153,6 +153,86 @@ Qed.
 
 End Q.
 
+(* ---------------- membership is "a row is stored", whatever its mint count ---------------- *)
+Lemma m_has_of_row a c m : In (a, c) m -> m_has a m = true.
+Proof. intros H. apply m_has_In. unfold keys. apply in_map_iff. exists (a, c). split; [ reflexivity | exact H ]. Qed.
+
+Lemma m_get_of_row a c m : NoDup (keys m) -> In (a, c) m -> m_get a m = Some c.
+Proof.
+  unfold keys. induction m as [|[k v] t IH]; intros Hnd Hin; [ destruct Hin | ].
+  cbn [map fst] in Hnd. inversion Hnd as [|? ? Hk Hnd']; subst. cbn [m_get].
+  destruct Hin as [Heq|Hin].
+  - injection Heq as -> ->. rewrite N.eqb_refl. reflexivity.
+  - destruct (k =? a) eqn:E; [ | apply IH; assumption ].
+    apply N.eqb_eq in E. subst k. exfalso. apply Hk. apply in_map_iff. exists (a, c). split; [ reflexivity | exact Hin ].
+Qed.
+
+Lemma t_has_of_row k a c m : In (k, a, c) m -> t_has k a m = true.
+Proof. intros H. apply t_has_In. unfold tkeys. apply in_map_iff. exists (k, a, c). split; [ reflexivity | exact H ]. Qed.
+
+Lemma t_get_of_row k a c m : NoDup (tkeys m) -> In (k, a, c) m -> t_get k a m = Some c.
+Proof.
+  unfold tkeys. induction m as [|p t IH]; intros Hnd Hin; [ destruct Hin | ].
+  cbn [map] in Hnd. inversion Hnd as [|? ? Hk Hnd']; subst. cbn [t_get].
+  destruct Hin as [Heq|Hin].
+  - subst p. assert (E : is_key k a (k, a, c) = true) by (apply is_key_true; reflexivity). rewrite E. reflexivity.
+  - destruct (is_key k a p) eqn:E; [ | apply IH; assumption ].
+    apply is_key_true in E. exfalso. apply Hk. rewrite E. apply in_map_iff. exists (k, a, c). split; [ reflexivity | exact Hin ].
+Qed.
+
+Lemma all_info_complete (flex : bool) a m l : forall k0 j s,
+  nth_error l j = Some s ->
+  In (k0 + N.of_nat j, t_has (k0 + N.of_nat j) a m,
+      if flex then match t_get (k0 + N.of_nat j) a m with Some c => c | None => 0 end else s_pal s)
+     (all_info flex a m k0 l).
+Proof.
+  induction l as [|s0 t IH]; intros k0 j s H; [ destruct j; discriminate | ].
+  destruct j as [|j]; cbn [nth_error] in H; cbn [all_info].
+  - injection H as <-. left. replace (k0 + N.of_nat 0) with k0 by lia. reflexivity.
+  - right. replace (k0 + N.of_nat (S j)) with ((k0 + 1) + N.of_nat j) by lia. apply IH. exact H.
+Qed.
+
+Section Rows.
+Variable valid : addr -> bool.
+
+(* plain / flex: a stored row (a, c) -- c may be 0 -- makes a a member for HasMember, and
+   the flex Member query returns exactly c *)
+Lemma row_is_member a c w :
+  valid a = true -> In (a, c) (w_mem w) -> q_has valid a w = Ok true.
+Proof. intros Hv Hin. unfold q_has. rewrite Hv, (m_has_of_row a c _ Hin). reflexivity. Qed.
+
+Lemma row_member_query a c w :
+  w_kind w = KFlex -> valid a = true -> NoDup (keys (w_mem w)) -> In (a, c) (w_mem w) ->
+  q_member valid a w = Ok c.
+Proof. intros Hk Hv Hnd Hin. unfold q_member. rewrite Hk, Hv, (m_get_of_row a c _ Hnd Hin). reflexivity. Qed.
+
+(* tiered kinds: a stored row ((k, a), c) -- c may be 0 -- is reported by StageMemberInfo,
+   by AllStageMemberInfo (with exactly c on the flex kind), and, while stage k is the
+   running one, by HasMember and Member *)
+Lemma t_row_is_member k a c w :
+  valid a = true -> NoDup (tkeys (t_mem w)) -> In (k, a, c) (t_mem w) -> k < nlen (t_stages w) ->
+  tq_stage_member valid k a w = Ok true /\
+  (exists l, tq_all_member valid a w = Ok l /\ exists p, In (k, true, p) l /\ (t_flex w = true -> p = c)) /\
+  (forall now, active_index now 0 (t_stages w) = Some k ->
+     tq_has valid now a w = Ok true /\ (t_flex w = true -> tq_member valid now a w = Ok c)).
+Proof.
+  intros Hv Hnd Hin Hk.
+  pose proof (t_has_of_row _ _ _ _ Hin) as Hh. pose proof (t_get_of_row _ _ _ _ Hnd Hin) as Hg.
+  repeat apply conj.
+  - unfold tq_stage_member. rewrite Hv, Hh.
+    assert (E : k <? nlen (t_stages w) = true) by lia. rewrite E, orb_true_r. reflexivity.
+  - unfold tq_all_member. rewrite Hv. eexists. split; [ reflexivity | ].
+    destruct (nth_error (t_stages w) (N.to_nat k)) as [s|] eqn:En.
+    + pose proof (all_info_complete (t_flex w) a (t_mem w) (t_stages w) 0 (N.to_nat k) s En) as Hc.
+      replace (0 + N.of_nat (N.to_nat k)) with k in Hc by lia. rewrite Hh, Hg in Hc.
+      eexists. split; [ exact Hc | ]. intros ->. reflexivity.
+    + apply nth_error_None in En. unfold nlen in Hk. lia.
+  - intros now Ha. unfold tq_has, tq_member. rewrite Hv, Ha, Hh, Hg. split; [ reflexivity | ].
+    intros ->. reflexivity.
+Qed.
+
+End Rows.
+
 (* whitelist-immutable *)
 Lemma imm_config_spec sender pal bps : imm_config sender pal bps = (sender, pal, bps).
 Proof. reflexivity. Qed.
